@@ -200,6 +200,16 @@ def _exec_perdraw(spec):
             continue
         if _check_draw(viols, text, feats, d, u, ev["v"], f"block {i}"):
             compared += 1
+    # the size of a block follows the declared law only if the block ends at the first unit whose cumulative mass exceeds the
+    # drawn target (for blocks of several different units that is the only way to state "mass between the cumulative masses
+    # before and after the n-th unit"): the stop-rule audit of this generation is part of the verdict
+    if out.audit is not None and out.exc is None:
+        for v in out.audit.violations:
+            if v["property"] == "C07" and v["invariant"] in ("grew_past_target", "stopped_early", "no_unit"):
+                viols.append({"property": "C09", "invariant": "block_end_outside_target_interval",
+                              "msg": "a block does not end at the first unit whose cumulative mass exceeds its drawn target: " + v["msg"],
+                              "features": feats, "input": text})
+                break
     if out.result is not None and out.exc is None and len(pairs) + sum(1 for e in out.world.log if e["k"] == "draw" and e.get("forced")) != len(stochs):
         viols.append({"property": "C09", "invariant": "one_draw_per_block",
                       "msg": f"{len(pairs)} draws for {len(stochs)} blocks", "features": feats, "input": text})
